@@ -10,6 +10,16 @@ CHECKS = {
    text="Exhaustive within bounds: TLC enumerates every call sequence (get/put incl. out-of-range and repeated releases) of depth 5-8 over ranges of 1-4 identifiers; each is executed on the real allocator and every call/result pair must be a step of IdPool.tla; seeded random histories extend this to ranges of 1-6 ids and to the production range. The writer-level half (ids on the wire = outstanding set, no leak after completion/session end) is validated by the C03 driver against Delivery.tla.",
    note="Trusts TLC, the Json community module and the verif-tagged constructor wasp.VerifNewMIDPool (returns newMIDPool unchanged). Allocation policy (which free id) is deliberately unconstrained.",
    design="5 C06, 4.2"),
+ "C04": dict(
+   technique="TLA+ spec AckQueue model-checked with TLC; TLC-generated call sequences replayed on the real ack.Queue; every return value and callback validated against the spec by TLC (trace validation)",
+   text="Exhaustive within bounds: TLC enumerates call sequences over Insert/Ack/Expire (coinciding and same-second deadlines, every ack packet type, duplicate and refused registrations, sweeps before/between/after; exhaustive to depth 3-4, simulated to depth 7-9), each closed by a far-future sweep; the real queue's return values and callbacks must be a behaviour of AckQueue.tla (ExactlyOnce, frame conditions, must/may sweep window).",
+   note="Trusts TLC and the Json module. Sweep latitude: must fire at now >= deadline+1s, must not at now <= deadline-1s. Callbacks attributed by a tag in the closure. Concurrent use is C20.",
+   design="5 C04, 4.3"),
+ "C01": dict(
+   technique="TLA+ specs Topics/SubIndex model-checked with TLC; TLC-generated domains and subscribe/unsubscribe histories executed on the real trie and replicated subscription state; answers validated by TLC against Matches (trace validation)",
+   text="Exhaustive within bounds at index level: every valid filter x every topic of <=3 (quick) / <=4 (thorough) levels over {a,b,''} plus wildcards, on subscriptions.Tree.Walk and SubscriptionsState.ByPattern; all ordered filter pairs at 2 levels; all TLC-generated subscribe/unsubscribe/re-subscribe histories of depth 3-4 over prefix-related filters; seeded random filter sets beyond. Every answer must equal {active subscriptions whose filter Matches the topic}, each once.",
+   note="Trusts TLC, the Json module; strings are built by joining level sequences (ground truth). Invalid filters excluded.",
+   design="5 C01, 4.1"),
 }
 
 def main():
